@@ -49,7 +49,10 @@ termination_by os ns => os.length + ns.length
 /-- `reorderKey`: `__key` of an object that has one, the value itself if comparable
 (scalars), `nil` otherwise (`nil`, `[]byte`, arrays, key-less objects). -/
 def reorderKey : J → J
-  | .obj kvs => (keyOf kvs).getD .null
+  | .obj kvs =>
+      match keyOf kvs with
+      | some (.sc n) => .sc n
+      | _ => .null          -- no key, a nil key, or a key that is a list or an object: identifies nothing
   | .sc n => .sc n
   | _ => .null
 
